@@ -1281,3 +1281,100 @@ func ruleInterruptPolling(c *Ctx, rule string) {
 	}
 	c.Ob(rule, "fast.spinInterrupt", sp, okSp, "the interrupt trampoline applies a pending asynchronous signal and returns run.Interrupt")
 }
+
+// ruleOptionRestore (X8): option bits cleared for the duration of one forced evaluation (cmdOptForceEval) are restored by
+// a deferred function registered before the evaluation starts, so that a panic escaping the evaluation does not leave
+// the interpreter in another mode.
+func ruleOptionRestore(c *Ctx, rule string) {
+	n := 0
+	for _, short := range []string{"fast", "classic"} {
+		pk := c.P.Pkg(short)
+		if pk == nil {
+			continue
+		}
+		info := pk.TypesInfo
+		for _, fd := range c.P.FuncsOf(short) {
+			if fd.Body == nil {
+				continue
+			}
+			fd := fd
+			// (a) v := cmdOptForceEval(...)   (b) the bits are cleared in place: g.Options &^= todisable
+			var cleared []struct {
+				obj types.Object
+				pos token.Pos
+				txt string
+			}
+			ast.Inspect(fd.Body, func(nd ast.Node) bool {
+				as, ok := nd.(*ast.AssignStmt)
+				if !ok || len(as.Lhs) != 1 || len(as.Rhs) != 1 {
+					return true
+				}
+				if call, ok := unparen(as.Rhs[0]).(*ast.CallExpr); ok && as.Tok == token.DEFINE {
+					if fn := calleeOf(info, call); fn != nil && fn.Name() == "cmdOptForceEval" {
+						if id := identOf(as.Lhs[0]); id != nil {
+							cleared = append(cleared, struct {
+								obj types.Object
+								pos token.Pos
+								txt string
+							}{info.Defs[id], as.Pos(), id.Name})
+						}
+					}
+				}
+				if as.Tok == token.AND_NOT_ASSIGN {
+					if _, isOpt := fieldSel(info, as.Lhs[0], "Options"); isOpt && fd.Name.Name != "cmdOptForceEval" {
+						if id := identOf(as.Rhs[0]); id != nil {
+							cleared = append(cleared, struct {
+								obj types.Object
+								pos token.Pos
+								txt string
+							}{info.Uses[id], as.Pos(), id.Name})
+						}
+					}
+				}
+				return true
+			})
+			for _, cl := range cleared {
+				// only inside evaluation entry points (functions that parse/compile/run)
+				work := token.NoPos
+				inspectCalls(fd.Body, func(call *ast.CallExpr) {
+					if fn := calleeOf(info, call); fn != nil && call.Pos() > cl.pos {
+						switch fn.Name() {
+						case "Parse", "ParseOnly", "CompileAst", "RunExpr", "classicEval", "fastEval", "Eval", "EvalAst":
+							if work == token.NoPos || call.Pos() < work {
+								work = call.Pos()
+							}
+						}
+					}
+				})
+				if work == token.NoPos {
+					continue
+				}
+				n++
+				restored := false
+				ast.Inspect(fd.Body, func(nd ast.Node) bool {
+					ds, ok := nd.(*ast.DeferStmt)
+					if !ok || ds.Pos() < cl.pos || ds.Pos() > work {
+						return true
+					}
+					lit, ok := ds.Call.Fun.(*ast.FuncLit)
+					if !ok {
+						return true
+					}
+					// unconditionally: a top-level statement of the deferred function
+					for _, st := range lit.Body.List {
+						if as, ok := st.(*ast.AssignStmt); ok && as.Tok == token.OR_ASSIGN && len(as.Lhs) == 1 {
+							if _, isOpt := fieldSel(info, as.Lhs[0], "Options"); isOpt && identOf(as.Rhs[0]) != nil && info.Uses[identOf(as.Rhs[0])] == cl.obj {
+								restored = true
+							}
+						}
+					}
+					return true
+				})
+				c.Ob(rule, funcKey(pk, fd)+"/"+cl.txt, fd, restored, "option bits cleared for one forced evaluation are set again by a deferred function registered before the evaluation: a panic does not leave the interpreter in another mode")
+			}
+		}
+	}
+	if n == 0 {
+		c.Ob(rule, "forced-evaluation", nil, false, "no temporary option change around an evaluation found: anchor missing")
+	}
+}
